@@ -75,9 +75,8 @@ Definition rel2abs (rel base : str) : option str :=
      for(e = meta[key]; e != NULL; e = strchr(e+1, ','))  { if( *e==',') ++e; ... }
    hands to rel2abs: the whole value, then the text behind every later comma
    (each still carrying the rest of the list; rel2abs cuts it at the first
-   comma).  strchr(e+1, ...) on the empty rest ends the loop (it looks at the
-   byte behind the value's terminator; in a macro-made block that is the ':'
-   of the next key or the block's terminator). *)
+   comma).  The loop ends at an empty entry (the rest behind rDepends'
+   trailing ','). *)
 Fixpoint after_comma (s : str) : option str :=
   match s with
   | [] => None
@@ -94,14 +93,14 @@ Fixpoint entries_from (fuel : nat) (e : str) : list str :=
   match fuel with
   | O => []
   | S f =>
-      let e1 := skip_comma e in
-      e1 :: match e1 with
-            | [] => []
-            | _ :: rest => match after_comma rest with
-                           | Some t => entries_from f (comma :: t)
-                           | None => []
-                           end
-            end
+      match skip_comma e with
+      | [] => []                    (* if(!*e) break;  -- behind rDepends' trailing ',' *)
+      | (_ :: rest) as e1 =>
+          e1 :: match after_comma rest with
+                | Some t => entries_from f (comma :: t)
+                | None => []
+                end
+      end
   end.
 Definition entries (v : str) : list str := entries_from (S (length v)) v.
 
